@@ -118,6 +118,56 @@ class C02Models:
         st.assume(seq.n >= 0)
         return st.alloc(lo)
 
+    # ------------------------------------------------------------------ pydantic's Variable with precise bound arrays
+    def construct(self, ex, cv, args, kwargs, lineno):
+        if not _on(ex) or cv.qualname != "gemseo.algos._variable.Variable" or args:
+            return NotImplemented
+        from .engine import PyRaise
+        from .npmodel import NumpyModel
+
+        ct = ex.contract
+        rec = getattr(ct, "variable_record", None)
+        if rec is None:
+            return NotImplemented
+        st = ex.st
+        f1 = rec.fields["lower_bound"]
+        size = kwargs.get("size", 1)
+        ty = kwargs.get("type", "float")
+        sz = TInt.embed(st, size)
+        tt = TStr.embed(st, ty)
+        np_ = NumpyModel()
+        bounds = []
+        for key, default in (("lower_bound", float("-inf")), ("upper_bound", float("inf"))):
+            b = kwargs.get(key, default)
+            if _is_arr(ex, b):
+                A = _arr(ex, b)
+                if A.rank != 1:
+                    raise PyRaise("ValueError", lineno)
+                if A.kind != "f":
+                    b = np_.call_method(ex, b, "np.astype", ["float"], {}, lineno)  # (bound arrays are real vectors in this model: an int64 array is its real image)
+            else:
+                raise Unsupported("Variable(...) with a scalar bound at the link level")
+            bounds.append(b)
+        lbt, ubt = f1.embed(st, bounds[0]), f1.embed(st, bounds[1])
+        valid = z3.Function("variable_valid_a", z3.IntSort(), TStr.sort(), f1.sort(), f1.sort(), z3.BoolSort())
+        # validation (model_validator): PositiveInt size, bounds of `size` components, no NaN, integer bounds for an integer variable, lb <= ub
+        # (the last three as one uninterpreted predicate of the arguments); an ndarray bound is stored as it is
+        ok = z3.And(sz >= 1, f1.dim(lbt) == sz, f1.dim(ubt) == sz, valid(sz, tt, lbt, ubt))
+        if not st.decide(ok):
+            raise PyRaise("ValueError", lineno)
+        from .values import str_lit
+
+        st.assume(z3.Or(tt == str_lit("float"), tt == str_lit("integer")))  # `type: DataType` is validated by pydantic
+        ex.assumed.add("pydantic model Variable (precise bounds): construction either raises a ValueError or yields size >= 1 and the given bound arrays, "
+                       "each of `size` components (assumed)")
+        return rec.mk(st, size=size, type=ty, lower_bound=bounds[0], upper_bound=bounds[1])
+
+    # ------------------------------------------------------------------ attributes
+    def value_attr(self, ex, obj, attr, lineno):
+        if _on(ex) and attr == "real" and isinstance(obj, SV) and obj.ty in (TReal, TInt):
+            return obj  # the real part of a real number (complex values are not covered)
+        return NotImplemented
+
     # ------------------------------------------------------------------ array methods
     def call_method(self, ex, recv, name, args, kwargs, lineno):
         if not _on(ex) or name != "np.nonzero" or args or kwargs or not _is_arr(ex, recv) or _arr(ex, recv).rank != 1:
@@ -154,6 +204,8 @@ class C02Models:
                 st.assume(z3.ForAll([i], body, patterns=[p]))
             except z3.Z3Exception:
                 pass
+        # ground instance of the first enumeration axiom at the first enumerated position (a non-empty enumeration has a first element)
+        st.assume(z3.Implies(m > 0, z3.And(0 <= idx[0], idx[0] < A.shape[0], _conv(A.elems[idx[0]], A.kind, "b"))))
         return (np_.new(ex, "i", (m,), idx),)
 
     # ------------------------------------------------------------------ builtins / numpy functions
